@@ -289,3 +289,8 @@ func TestC11(t *testing.T) {
 		Budget: ev.Budget{Quick: 30000, Thorough: 250000}, MinNonTrivial: 0.2,
 	})
 }
+
+// FuzzC11 lets the coverage-guided fuzzer drive the type generator.
+func FuzzC11(f *testing.F) {
+	f.Fuzz(rapid.MakeFuzz(ev.FuzzProp("C11", ev.Sub[c11Case]{Name: "types", Gen: genC11, Oracle: oracleC11})))
+}
